@@ -234,7 +234,10 @@ class RowSnapshots(object):
         self.busy = True
         try:
             if root.stale:
-                return  # bankruptcy liquidation pending: bt refreshes on the next read; the final update of the date is what is recorded
+                # bankruptcy liquidation pending (the declaring update leaves the tree stale and the backtest loop stops updating on
+                # that date): which state is "end of date" is not fixed by the statement - forget what was seen earlier on this date
+                self.snaps.setdefault(id(root), {}).pop(date, None)
+                return
             snap = {}
             for m in root.members:
                 if isinstance(m, StrategyBase):
